@@ -327,8 +327,47 @@ def r4(ctx):
     ctx.ob("R4", "undeploy_all iterates a snapshot of deployments_map", ok, func=f, node=f.node, instance="undeploy_all:snapshot")
 
 
-RULES = [("R1", r1), ("R2", r2), ("R3", r3), ("R4", r4)]
-FLOORS = {"R1": 18, "R2": 5, "R3": 3, "R4": 4}
+def r5(ctx):
+    """A wrapper takes the wrapped connector only after that deployment completed: every read of
+    deployments_map[<name>] in _inner_deploy is dominated by the wait on its event or by the awaited _deploy."""
+    p = ctx.prog
+    f = p.func(f"{MGR}._inner_deploy")
+    g = f.cfg
+    reads = [n for n in g.nodes.values() if any(
+        isinstance(x, ast.Subscript) and isinstance(x.ctx, ast.Load) and unparse(x.value) == "self.deployments_map" for x in n.walk())]
+    ctx.require(bool(reads), "C26.R5: _inner_deploy no longer reads deployments_map")
+    done = [n.id for n in g.nodes.values() if n.has_await() and any(
+        (isinstance(c.func, ast.Attribute) and c.func.attr == "wait" and "events_map" in unparse(c.func.value))
+        or (isinstance(c.func, ast.Attribute) and unparse(c.func) == "self._deploy") for c in n.calls())]
+    for r in reads:
+        ok = bool(done) and g.dominates(done, r.id)
+        w = g.path(g.entry, [r.id], avoid=done) if not ok else None
+        ctx.ob("R5", f"`{r.text(60)}`: the wrapped connector is used only after its deployment completed", ok, func=f, node=r.ast,
+               instance=f"_inner_deploy:read-after-complete:{r.text(50)}",
+               message="the wrapped deployment is taken from deployments_map without waiting for its deployment event: the connector is registered "
+                       "there *before* it is deployed, so a concurrent wrapper is deployed on top of a deployment that is still starting",
+               witness=g.describe(w) if w else [])
+    # the event is set only after the connector was deployed (not right after it was registered)
+    d = p.func(f"{MGR}._deploy")
+    gd = d.cfg
+    dep = [n.id for n in gd.nodes.values() if n.has_await() and any(isinstance(c.func, ast.Attribute) and c.func.attr == "deploy" and unparse(c.func.value) != "self" for c in n.calls())]
+    reg = [n for n in gd.nodes.values() if n.kind == "stmt" and isinstance(n.ast, ast.Assign) and unparse(n.ast.targets[0]).startswith("self.deployments_map[")]
+    sets = [n for n in gd.nodes.values() if _is_set_call(n, "self.events_map[")]
+    ctx.require(bool(dep) and bool(reg) and bool(sets), "C26.R5: deploy / registration / event nodes not found in _deploy")
+    # on the eager path: no set() reachable from the registration without passing connector.deploy(), except on failure routes
+    eager_reg = [r for r in reg if any(d_ in gd.reach([r.id]) for d_ in dep)]
+    for r in eager_reg:
+        early = None
+        for s_ in sets:
+            pth = gd.path(r.id, [s_.id], avoid=dep, kinds=NORMAL)
+            if pth:
+                early = pth
+        ctx.ob("R5", "the deployment event is set only after connector.deploy() returned", early is None, func=d, node=r.ast,
+               instance="_deploy:set-after-deploy", message="waiters are released before the connector finished deploying", witness=gd.describe(early) if early else [])
+
+
+RULES = [("R1", r1), ("R2", r2), ("R3", r3), ("R4", r4), ("R5", r5)]
+FLOORS = {"R1": 18, "R2": 5, "R3": 3, "R4": 4, "R5": 3}
 
 _IDIOM = "if not self.deploying:\n            self.deploying = True\n            await self.deploy(self.external)"
 
@@ -362,7 +401,11 @@ VARIANTS = [
     V("undeploy guard removed", MFILE, f"{MGR}.undeploy", "if len(self.dependency_graph[deployment_name]) == 0:", "if True:", "R4", control=True),
     V("delete after await", MFILE, f"{MGR}.undeploy", "del self.deployments_map[deployment_name]\n            ", "", "R4"),
     V("undeploy_all iterates live map", MFILE, f"{MGR}.undeploy_all", "dict(self.deployments_map)", "self.deployments_map", "R4"),
+    V("wait only when not yet registered (S15 revert)", MFILE, f"{MGR}._inner_deploy",
+      "await self.events_map[deployment_name].wait()", "if deployment_name not in self.deployments_map:\n                await self.events_map[deployment_name].wait()", "R5", control=True),
+    V("event set right after registration", MFILE, f"{MGR}._deploy",
+      "await connector.deploy(deployment_config.external)", "self.events_map[deployment_name].set()\n                    await connector.deploy(deployment_config.external)", "R5"),
     # benign
-    V("rename local", MFILE, f"{MGR}._deploy", "connector_type", "ctype", None, count=5),
+    V("rename local", MFILE, f"{MGR}._deploy", "connector_type", "ctype", None, count=6),
     V("logging added", MFILE, f"{MGR}.undeploy", "self.events_map[deployment_name].clear()", "logger.debug('x')\n            self.events_map[deployment_name].clear()", None),
 ]
